@@ -476,7 +476,7 @@ class Program:
         for cls in self.classes.values():
             anc = self.ancestors(cls)
             names = [a if isinstance(a, str) else a.fq for a in anc]
-            cls.is_enum = any(n.endswith('Enum') for n in names)
+            cls.is_enum = any(isinstance(a, str) and a.split('.')[-1] in ('Enum', 'IntEnum', 'StrEnum', 'Flag', 'IntFlag') for a in anc)   # (a dataclass that is *named* Enum is none)
             cls.is_exception = any(n.split('.')[-1] in ('Exception', 'BaseException', 'TypeError', 'ValueError',
                                                         'RuntimeError', 'KeyError', 'LookupError')
                                    or n.endswith('Error') for n in names if n != cls.fq)
